@@ -7,9 +7,11 @@ CLAIMED = {
         "within small constants and checks block-wise == single-pass == per-group definition in every state; every "
         "recorded call of the real numba.group_* kernels (all inputs up to length 3/4, all kernels, dtype classes, mask "
         "kinds, thread counts, arrow chunk layouts) is replayed through the same actions by TLC and accepted only if the "
-        "returned arrays equal the machine's state.",
-   note="trusted: value embeddings/projections (gbverif/abstract.py), TLC; bounds: rows<=7, 2-3 groups on the spec, rows<=6 on the code",
-   technique="TLA+ spec GBReduce model-checked with TLC + batch trace validation (Trace_GBReduce) of real kernel calls",
+        "returned arrays equal the machine's state.  Supplement: TLAPS proves the scalar merge algebra behind the block law "
+        "(Step(Merge(p,q),v) = Merge(p,Step(q,v)), identities, associativity for max/min/first/sum) over unbounded integers "
+        "(spec/proofs/GBMergeLemmas.tla, 18 obligations, re-proved by every run).",
+   note="trusted: value embeddings/projections (gbverif/abstract.py), TLC, tlapm back ends; bounds: rows<=7, 2-3 groups on the spec, rows<=6 on the code; the induction over block count on top of the TLAPS lemmas is a paper argument",
+   technique="TLA+ spec GBReduce model-checked with TLC + batch trace validation (Trace_GBReduce) of real kernel calls + TLAPS lemmas for the merge algebra",
    ref="DESIGN.md section 6/C04"),
  "C01": dict(
    text="TLC checks the GroupBy reduction pipeline model (GBCore: factorization row by row, kernel step per selected row, "
@@ -23,7 +25,7 @@ CLAIMED = {
    text="TLC explores every factorization route as a state machine (GBFactorize: plain dictionary, mixed-radix multi-key, "
         "monotone prefix scan, chunk tasks finishing in any order, pointer tables, unification) over all key arrays within the "
         "bounds and checks the faithful-partition relation P1-P4; every recorded real factorization (factorize_1d/2d, GroupBy "
-        "codes, groups, key_count over dtype x container x route) is validated by TLC against the same relation (P1-P5).",
+        "codes, groups, key_count, has_null_keys, len over dtype x container x route) is validated by TLC against the same relation (P1-P5).",
    note="trusted: code/label projection (gbverif/drivers/factorize.py); bounds: rows<=7 x 3 labels on the spec, rows<=12 on the code; thresholds scaled down via core.THRESHOLD_FOR_CHUNKED_FACTORIZE",
    technique="TLA+ spec GBFactorize model-checked with TLC + trace validation (Trace_GBFactorize) of real factorizations",
    ref="DESIGN.md section 6/C02"),
@@ -31,7 +33,7 @@ CLAIMED = {
    text="TLC checks the cumulative kernel machine (GBCumulative: running partial per group, one RowCum action per row; "
         "null-key and unselected rows are stutters) against the prefix-reduction definition over the row history in every "
         "state; every judged row of every recorded real cumsum/cummin/cummax/cumcount call is one observation of a RowCum "
-        "action in TLC's replay (exactness through 2^53/2^55-based embeddings).",
+        "action in TLC's replay (exactness through 2^53/2^55-based embeddings); groups of 33000..140000 rows are validated against the closed-form prefix definition on a periodic input.",
    note="trusted: embeddings/projection (abstract.py, drivers/rowwise.py); bounds: rows<=6 x 2 groups on the spec, rows<=60 on the code",
    technique="TLA+ spec GBCumulative model-checked with TLC + per-row trace validation (Trace_GBCumulative)",
    ref="DESIGN.md section 6/C08"),
@@ -39,7 +41,7 @@ CLAIMED = {
    text="TLC checks the rolling machine (GBRolling: per-group circular buffer, write position, non-null count, running sum / "
         "extremum with recomputation, shift/diff) against the sliding-window definition over the row history in every state "
         "(1 group rows<=6: 117M states in thorough); every judged row of every recorded real rolling_sum/mean/min/max, shift, "
-        "diff call in both output layouts is one observation of a RowRoll action in TLC's replay.",
+        "diff call in both output layouts is one observation of a RowRoll action in TLC's replay; groups and windows beyond 2^15 / 2^16 rows are validated against closed-form window definitions on periodic inputs.",
    note="trusted: embeddings/projection incl. the mapping of the group-sorted layout back to row order; bounds: window<=3 on the spec, <=5 on the code",
    technique="TLA+ spec GBRolling model-checked with TLC + per-row trace validation (Trace_GBRolling)",
    ref="DESIGN.md section 6/C09"),
@@ -64,7 +66,7 @@ CLAIMED = {
    technique="TLA+ spec GBEma model-checked with TLC + per-row exact-rational trace validation (Trace_GBEma)",
    ref="DESIGN.md section 6/C10"),
  "C15": dict(
-   text="TLC checks the scan machine (GBSelect: forward/backward scan with per-group counters, unbounded in the intended model, a 2-bit counter as negative configuration) against the rank definition for all key columns within the bounds; every recorded head/tail/nth(keep_input_index=True) call is replayed (one Visit action per row) and must return exactly the picked rows, once, with their index labels and in original order; scaled replays at group sizes straddling 2^7/2^15/2^16 are validated against the definition on run-length encoded keys.",
+   text="TLC checks the scan machine (GBSelect: forward/backward scan with per-group counters, unbounded in the intended model, a 2-bit counter as negative configuration) against the rank definition for all key columns within the bounds; every recorded head/tail/nth(keep_input_index=True) call is replayed (one Visit action per row) and must return exactly the picked rows, once, with their index labels and in original order; scaled replays at group sizes straddling 2^7/2^15/2^16 are validated against the definition on run-length encoded keys; the array-level kernels find_first_n / find_last_n (with boolean masks) are replayed through the same scan.",
    note="trusted: row identity carried by the values; group sizes >= 2^31 out of reach",
    technique="TLA+ spec GBSelect model-checked with TLC + trace validation (Trace_GBSelect) incl. scaled replays",
    ref="DESIGN.md section 6/C15"),
@@ -74,9 +76,9 @@ CLAIMED = {
    technique="TLA+ spec GBStats model-checked with TLC + trace validation (Trace_GBCore, Trace_GBApply, Trace_GBCompose)",
    ref="DESIGN.md section 6/C16"),
  "C03": dict(
-   text="One logical call is driven through every execution strategy (thresholds scaled to 2/4 rows: chunk-wise, monotone and partially monotone key routes; 1..4 threads; keys/values as arrow ChunkedArrays incl. misaligned chunks) and each run is validated by TLC against the same GBCore machine, so all strategies agree; TLC explores every completion order of the pool (GBParallel) and block merge (GBReduce); every completion order of 2..4 tasks is forced in the real ThreadPoolExecutor and validated as a trace; scaled replays at the real 1,000,000-row switch-over are validated through the blow-up law (a TLC invariant of GBCore).",
+   text="One logical call is driven through every execution strategy (thresholds scaled to 2/4 rows: chunk-wise, monotone and partially monotone key routes; 1..4 threads; keys/values as arrow ChunkedArrays incl. misaligned chunks) and each run is validated by TLC against the same GBCore machine, so all strategies agree; TLC explores every completion order of the pool (GBParallel) and block merge (GBReduce); every completion order of 2..4 tasks is forced in the real ThreadPoolExecutor and validated as a trace; scaled replays at the real 1,000,000-row switch-over are validated through the blow-up law (a TLC invariant of GBCore).  The chunked-key block pipeline is its own machine (GBChunked: Arrow's slice of the code array, first-chunk search, one task per piece, merge through the pointer tables with counts; invariants MergedIsDef, PointerAligned, PartialIsPieceDef, 5 negative configurations) and every real reduction on chunked keys is replayed through it with the per-piece partials logged by hook H6 and count_ikey; the pool model (GBParallel) also covers the inline single-task path, FIFO start under a worker bound, raising tasks (first exception met is re-raised), parallel_reduce and termination, each bound by forced-schedule traces.",
    note="trusted: harness-side scheduler (subclass of the real ThreadPoolExecutor), threshold scaling via the module global and hook H3, projections",
-   technique="TLA+ specs GBParallel/GBReduce/GBCore model-checked with TLC + trace validation of strategy-product runs, forced pool schedules and scaled replays",
+   technique="TLA+ specs GBParallel/GBReduce/GBCore/GBChunked model-checked with TLC (safety + one liveness property) + trace validation of strategy-product runs, chunk-pipeline runs with hook-logged partials, forced pool schedules and scaled replays",
    ref="DESIGN.md section 6/C03"),
  "C11": dict(
    text="Label order, listing (observed_only), sort off/on, category order and multi-key lexicographic order are validated by TLC through GBCore on every recorded call (exhaustive small inputs x flags, random 2-3-key groupings); result kind, Series name, index level names and column labels for every way of passing keys and values are validated by Trace_GBShape, and every column of a multi-input result is validated as its own single-input GBCore trace.",
@@ -84,7 +86,7 @@ CLAIMED = {
    technique="TLA+ spec GBCore model-checked with TLC + trace validation (Trace_GBCore per column, Trace_GBShape)",
    ref="DESIGN.md section 6/C11"),
  "C13": dict(
-   text="TLC enumerates every history of the 11 operation classes over the three key representations (GBObject; invariants: every operation enabled in every state, no way back to local codes); the labelled state graph is dumped and every transition is replayed on real GroupBy objects (several key arrays, flat and chunked), plus random walks of 10..30 operations; each call is compared with the same call on a freshly built grouping and each recorded history is validated by TLC against GBObject.",
+   text="TLC enumerates every history of the 11 operation classes over the three key representations (GBObject; invariants: every operation enabled in every state, no way back to local codes); the labelled state graph is dumped and every transition is replayed on real GroupBy objects (several key arrays, flat and chunked), plus random walks of 10..30 operations; each call is compared with the same call on a freshly built grouping and each recorded history is validated by TLC against GBObject.  The environment action Refill models a caller that reuses one mask / values buffer and rewrites it in place between calls (negative configuration MemoByIdentity); the real histories do the same.",
    note="trusted: driver-side equality with the fresh object's result; representation projection reads one private attribute (skipped if unobservable)",
    technique="TLA+ spec GBObject model-checked with TLC, state graph replayed transition by transition into the real object, histories trace-validated",
    ref="DESIGN.md section 6/C13"),
@@ -102,7 +104,7 @@ CLAIMED = {
         "formats and validated by TLC against the same model-checked machines (GBCore for aggregations, GBCumulative, GBRolling, the "
         "partition relation of GBFactorize for iteration) plus Trace_GBFacade (which columns appear in the result); inputs: every key "
         "column up to 3/4 rows x by column(s)/array/level/mixture x 5 index kinds x [] selection x 10 aggregations, 4 cumulative, 4 rolling "
-        "methods and iteration.",
+        "methods (window 1..3, min_periods None / 0..window) and iteration.",
    note="trusted: projections in gbverif/drivers/facade.py; pandas is only a second implementation fed to the same spec, never the oracle",
    technique="TLA+ specs GBCore/GBCumulative/GBRolling/GBFactorize model-checked with TLC + trace validation of facade, core and pandas runs against the same specs",
    ref="DESIGN.md section 6/C17"),
@@ -116,9 +118,9 @@ CLAIMED = {
    ref="DESIGN.md section 6/C18"),
  "C20": dict(
    text="TLC checks the chunked reduce machine (GBNanops: per-thread block partials, null skipping, reduce of block results; an empty "
-        "block that contributes garbage is the negative configuration) against the NaN-aware definition for all arrays within the bounds "
+        "block that contributes garbage and a split that loses the last element are the negative configurations; invariant BlocksPartition) against the NaN-aware definition for all arrays within the bounds "
         "and all thread counts; every recorded nan*/count call (all arrays up to length 5/7 over {nan,1,2,3} x 1..8 threads, float and "
-        "integer dtypes, 2-D by axis), nb_dot, bools_to_categorical and pretty_cut call is validated by TLC (exact rationals; printed bin "
+        "integer dtypes, 2-D by axis; every (length, thread count) pair up to 160/600 rows x 8 threads), nb_dot, bools_to_categorical and pretty_cut call is validated by TLC (exact rationals; printed bin "
         "bounds parsed back and checked to contain the value).",
    note="trusted: rational recovery, parsing of printed bin labels; var/std rounding judged with a 1e-9 relative bound harness-side before rational recovery",
    technique="TLA+ spec GBNanops model-checked with TLC + trace validation (Trace_GBHelpers) of real helper calls",
@@ -128,7 +130,7 @@ CLAIMED = {
         "(GBMemory: 4 caller inputs, logical codes/labels, 4 lazily filled caches with their fill order and sources; invariants "
         "InputsIntact, GroupingIntact, Repeatable, CachesIntact; 4 negative configurations).  Real histories on one grouping object "
         "(one replay per transition of TLC's dumped state graph, ordered pairs of the 56 concrete methods with a write through the "
-        "first result in between, every method x 15 value containers x 5 mask kinds, random walks) are validated step by step: "
+        "first result in between, every method x 18 value containers (incl. caller-owned lists / dicts holding temporal columns) x 5 mask kinds, random walks) are validated step by step: "
         "byte-level snapshots of every input, logical codes/labels and every filled cache against a fresh grouping on pristine "
         "inputs, np.shares_memory between result and every buffer, bit-exact equality of each result with the fresh grouping's.",
    note="trusted: snapshot / alias observation in gbverif/drivers/memory.py (reads pandas' block reference tracker to recognise copy-on-write protection); state accessors (group_ikey, ikey_count, result_index) are not written through",
@@ -157,7 +159,9 @@ m = {
            "baseline_off_cmd": "cd /repo && env -u GROUPBY_LIB_VERIF /venv/bin/python -m pytest -ra -q -p no:cacheprovider --timeout=900 --continue-on-collection-errors",
            "source_commits": hook_commits, "add_only": True},
  "engines": [{"name": "tlc", "path": "/opt/veriftools/tla/tla2tools.jar", "serves_properties": sorted(CLAIMED),
-              "kind_free_text": "TLA+ specifications under /verif/spec model-checked with TLC; real executions validated as traces against the same specifications"}],
+              "kind_free_text": "TLA+ specifications under /verif/spec model-checked with TLC; real executions validated as traces against the same specifications"},
+             {"name": "tlapm", "path": "/opt/veriftools/tlapm", "serves_properties": ["C04"],
+              "kind_free_text": "TLA+ proof system: spec/proofs/GBMergeLemmas.tla (merge algebra of the block law over unbounded integers), a supplement to the TLC claim of C04"}],
  "checks": [], "not_applicable": [],
  "notes": "Model-based verification with explicit TLA+ specifications (see DESIGN.md). exit 0 = held, 1 = VIOLATION line, 2 = machinery failure.",
 }
